@@ -374,6 +374,11 @@ StringDictionaryHHTFC::StringDictionaryHHTFC(IteratorDictString *it,
 
     delete[] tmp;
 
+    // Adding the ending decodeable string of a last bucket which is not full
+    if (textSubstr.size() > 0)
+      builderHU->insertEndingSubstr(&codeSubstr, &ptrSubstr, &textSubstr,
+                                    &lenSubstr);
+
     bytesStrings++;
     xblStrings.push_back(bytesStrings);
     blStrings = new LogSequence(&xblStrings, bits(bytesStrings));
